@@ -1801,6 +1801,80 @@ def check_writer_bounds(chk):
     return n
 
 
+def check_hash_update(chk, rule='R10.16'):
+    """every function body is hashed (SHA1 over the body bytes, any length): the block loop of SHA1Update reads whole 64-byte blocks
+    from the input and copies the rest into the context buffer.  SHA1Update is evaluated on concrete lengths around the block
+    boundaries (0..2 blocks and more, tails of 0, 1, 62, 63 bytes) for every fill state of the context buffer, with SHA1Transform and
+    memcpy as observers: every block read and every copy lies inside the input (len bytes) and inside the 64-byte context buffer, and
+    the bytes consumed are exactly the input, in order"""
+    from .. import pe
+    from ..pe import Ptr
+    tu = astdb.dump_ast(astdb.src('w2c2/sha1.c'))
+    chk.unit(tu)
+    chk.require('SHA1Update' in tu.functions and astdb.fn_body(tu.functions['SHA1Update']) is not None, 'anchor SHA1Update not found in sha1.c')
+    chk.fn('SHA1Update')
+    n = 0
+    bad = None
+    lens = [0, 1, 2, 55, 56, 62, 63, 64, 65, 119, 126, 127, 128, 129, 190, 191, 192, 193, 255, 256, 319]
+    for fill in (0, 1, 8, 55, 56, 63):
+        for ln in lens:
+            consumed = []
+            problem = []
+
+            def span(ptr, cnt, what):
+                if not isinstance(cnt, int) or cnt < 0 or cnt >= 1 << 62:
+                    problem.append('%s of %r bytes' % (what, cnt))
+                    return None
+                if not (isinstance(ptr, Ptr) and isinstance(ptr.c, list) and isinstance(ptr.k, int)):
+                    problem.append('%s through %r' % (what, ptr))
+                    return None
+                if ptr.k < 0 or ptr.k + cnt > len(ptr.c):
+                    problem.append('%s of %d bytes at offset %d of an object of %d bytes' % (what, cnt, ptr.k, len(ptr.c)))
+                    return None
+                return ptr
+
+            def transform(interp, args, node):
+                src = span(args[1], 64, 'SHA1Transform reads a block')
+                if src is None:
+                    raise pe.PathAbort('out-of-bounds')
+                consumed.extend(src.c[src.k:src.k + 64])
+                return 0
+
+            def memcpy(interp, args, node):
+                d, s_, cnt = args
+                if span(s_, cnt, 'memcpy reads') is None or span(d, cnt, 'memcpy writes') is None:
+                    raise pe.PathAbort('out-of-bounds')
+                for k_ in range(cnt):
+                    d.c[d.k + k_] = s_.c[s_.k + k_]
+                return d
+            it = pe.Interp([tu], {'SHA1Transform': transform, 'memcpy': memcpy, '__builtin_memcpy': memcpy})
+            it.cur_tu = tu
+            data = [('d', k_) for k_ in range(ln)]
+            buf = [('old', k_) for k_ in range(fill)] + [None] * (64 - fill)
+            ctx = {'v': {'state': [0] * 5, 'count': fill * 8, 'buffer': buf}}
+            try:
+                paths = it.explore(lambda: ('SHA1Update', [Ptr(ctx, 'v'), Ptr(data, 0), ln], {}))
+            except (pe.PEError, IndexError, TypeError) as e:
+                raise AnalysisBroken('SHA1Update(fill=%d, len=%d): %s' % (fill, ln, e))
+            n += 1
+            what = 'SHA1Update with %d bytes already buffered and %d bytes of input' % (fill, ln)
+            if problem or len(paths) != 1 or paths[0].aborted:
+                bad = bad or '%s: %s' % (what, '; '.join(problem) or 'aborted (%r)' % (paths[0].aborted if paths else None))
+                continue
+            c2 = paths[0].state if False else ctx['v']
+            total = fill + ln
+            rest = c2['buffer'][:total % 64]
+            stream = [('old', k_) for k_ in range(fill)] + data
+            if consumed + rest != stream or c2['count'] != total * 8:
+                bad = bad or '%s: hashes %d block bytes and keeps %d - not the %d input bytes in order (bit count %r)' % (
+                    what, len(consumed), len(rest), total, c2['count'])
+    chk.expect(bad is None, rule, 'sha1-update-bounds',
+               '%s - every function body is hashed, so a body of that length makes the translator read or write outside an object' % bad,
+               'SHA1Update:block-loop', detail_ok='%d (buffer fill, input length) combinations: every block and copy inside the input and the '
+               'context buffer, input consumed in order' % n)
+    return n
+
+
 def run(chk):
     chk.explanation = (
         'Whole-translator syntactic/dataflow rules over the clang ASTs of every translator source file: worst-case output length of each '
@@ -1854,6 +1928,8 @@ def run(chk):
     n_before = len(chk.obligations)
     _c03.check_ignore_equivalence(chk, it15, rule_dead='R10.15')
     chk.floor('R10.15', 4)
+    check_hash_update(chk)
+    chk.floor('R10.16', 1)
     chk.extra['sites'] = dict(sprintf=n_fmt, copies=n_cp, raw_buffer=n_buf, nullable_sinks=n_null,
                               tainted_locations=sorted(map(str, nf.tainted)), seed_evidence={str(k): v[:3] for k, v in just.items()})
     chk.floor('R10.1', 10)
